@@ -81,7 +81,7 @@ def report_disagreements(c, results, deaths, items, limit_confirm=3):
                 ev2 = (r2.get(sc) or [{}])[0]
                 if sc not in d2 and ev2.get("agree", True):
                     raise vf.FrameworkError("disagreement on case %s not reproduced" % sc)
-            c.report(key, ev.get("why", "?"), {"case": case, "event": ev})
+            c.report(key, ev.get("why", "?"), dict({"case": case, "event": ev}, **c.rp("esl", items[sc])))
     for sc, d in deaths.items():
         case = json.loads(items[sc])
         c.report("death:%s:%s" % (d["kind"], (d.get("stderr") or "").strip().splitlines()[-1][:40] if d.get("stderr") else ""),
